@@ -9,6 +9,7 @@ import decoder_rules as DR
 import ownership as O
 import tables
 import typestate
+import rules
 
 # field -> (constructor, marker, setter) the builder wired to it must use
 LEAF = {
@@ -396,6 +397,22 @@ def run(ctx, chk):
     chk.not_decided += ["acceptance IF AND ONLY IF well-formed (language of a push-down machine driven by runtime counts)",
                         "'every definite container completely filled' and value fidelity beyond the per-head tables (C10/C15)"]
     chk.rule("C02.status", "per initial byte: the status the decoder returns is the one the reference assigns")
+    chk.rule("C02.stop", "between two steps of cbor_load that can hand an item to the builder, control passes through a test that found the "
+             "decoding stack non-empty (must-pass-through on the flow graph - decided without enumerating paths, so a loader with a fast "
+             "path too rich for the path engine is still judged): once the stack is empty the item is complete, and what follows it in the "
+             "buffer is not part of it")
+    # the path-based rules below (automaton, drain, stop) own this question; the flow-graph form is the fallback for a loader
+    # whose paths the path engine gives up on
+    try:
+        cache.get("cbor_load")
+        too_rich = False
+    except AnalysisBroken as ex_:
+        too_rich = "more than" in str(ex_)
+        if not too_rich:
+            raise
+    import os as _os
+    if too_rich or _os.environ.get("VERIF_STOPCFG_ALWAYS"):
+        rules.check_stop_cfg(chk, "C02.stop", prog, eff)
     # 1. dispatch
     n = DR.per_byte(chk, "C02", prog, eff, {"action", "payload", "read", "claim", "error-arm", "status"})
     chk.floor("C02.action", "per-byte obligations", n, 500)
